@@ -247,11 +247,15 @@ func newCmap4(cm tables.CmapSubtable4) (cmap4, error) {
 		}
 		idRangeOffset := int(cm.IdRangeOffsets[i])
 
+		// Lookup, Iter and RuneRanges assume that the segments are valid, sorted and do not
+		// overlap (the end of a segment may be the start of the next one) : otherwise,
+		// an inverted segment yields 65536 runes when iterating
+		if entry.end < entry.start || (i != 0 && entry.start < out[i-1].end) {
+			return nil, errors.New("invalid cmap subtable format 4 segment")
+		}
+
 		// some fonts use 0xFFFF for idRangeOff for the last segment
 		if entry.start != 0xFFFF && idRangeOffset != 0 {
-			if entry.end < entry.start {
-				return nil, errors.New("invalid cmap subtable format 4 segment")
-			}
 			// we resolve the indexes
 			entry.indexes = make([]tables.GlyphID, int(entry.end)-int(entry.start)+1)
 			indexStart := idRangeOffset/2 + i - segCount
